@@ -9,7 +9,20 @@
    P hex absarg OPS                 parse(str), apply OPS                        -> E | U | bools|state
    PS kind hexA hexB absarg OPS     (S only) the interval the text kind/A/B describes -> U | X | bools
    Q start end ty absarg OPS        parse(tuple)                                 -> E | bools|state
-   T ARGS absarg OPS                parse(TimeRange(ARGS), absolute=absarg)      -> E | bools|state *)
+   T ARGS absarg OPS                parse(TimeRange(ARGS), absolute=absarg)      -> E | bools|state
+   bools is followed by ";" is_specified() in_range_started() for IMPL and MODEL.
+   bound tokens J<k> (Python int), D<k> (numpy.float64), E<k> (numpy.float32), K<k> (numpy.int64) are floats to the model.
+   H n ARGS*n STEPS                 a history on n ranges (names 0..n-1; new names are the next integers), STEPS comma list:
+        m<i>.<op>            is_in_range(message) / restart() on range i                 -> 0 | 1 | .
+        x<i>.<j>.<k>.<ip>    k = i.intersect(j, in_place=ip)                             -> E | . flags
+        a<i>.<t>             i.make_absolute(t)                                          -> E | .
+        b<i>.<k>.<t>         k = i.make_absolute(t, in_place=False)                      -> E | . flags
+        c<i>.<k> d<i>.<k>    k = copy.copy(i) / copy.deepcopy(i)                         -> . flags
+        q<i>.<k>.<ab>        k = TimeRange.parse(i, absolute=ab)                         -> E | . flags
+      flags: s = the result is the object i itself; o = it is the other operand; M = an operand that must not change did.
+      output: step results joined by "," then ";" getters of every name then "|" states of every name joined by "/".
+      S: X when a set-up step is applied to a range that has already seen messages (outside the theorems), or when
+      the operands do not share one origin on the data. *)
 let fail s = failwith ("bad token " ^ s)
 let ext_tok s = match s with
   | "i" -> PInf | "n" -> NInf | _ -> Fin (z_of_int (int_of_string s))
@@ -17,7 +30,7 @@ let targ_tok s =
   if s = "N" then ANone else
   let r = String.sub s 1 (String.length s - 1) in
   match s.[0] with
-  | 'F' -> AFloat (ext_tok r)
+  | 'F' | 'J' | 'D' | 'E' | 'K' -> AFloat (ext_tok r)
   | 'T' -> if r = "x" then ATs None else ATs (Some (ext_tok r))
   | _ -> fail s
 let ob_tok s = match s with "-" -> None | "0" -> Some false | "1" -> Some true | _ -> fail s
@@ -36,9 +49,146 @@ let show_oe o = match o with None -> "None" | Some e -> show_ext e
 let show_state r =
   Printf.sprintf "%s %s %s %s %s %s" (b2s r.started) (b2s r.ended)
     (match r.t0 with None -> "None" | Some z -> string_of_int (int_of_z z)) (show_oe r.start) (show_oe r.stop) (b2s r.absolute)
-let show_run f r ops = let (bs, r') = run_gen f r ops in bools bs ^ "|" ^ show_state r'
-let str_tok h = List.map z_of_int (hex_to_ints (if h = "-" then "" else h))
 let rec map2 f a b = match a, b with x :: a', y :: b' -> f x y :: map2 f a' b' | _, _ -> []
+let getters r = b2s r.specified ^ b2s r.started
+let show_run f r ops = let (bs, r') = run_gen f r ops in bools bs ^ ";" ^ getters r' ^ "|" ^ show_state r'
+let ints_of s = List.map int_of_string (String.split_on_char '.' s)
+let rec take n l = if n = 0 then [] else match l with x :: t -> x :: take (n - 1) t | [] -> []
+let rec drop n l = if n = 0 then l else match l with _ :: t -> drop (n - 1) t | [] -> []
+let rec group4 l = match l with a :: b :: c :: d :: t -> args_of a b c d :: group4 t | _ -> []
+exception Outside
+(* ---- histories: MODEL ---- *)
+let history_model f n toks steps =
+  let cells = Hashtbl.create 8 and names = Hashtbl.create 8 in
+  List.iteri (fun i a -> Hashtbl.replace cells i (init_gen f a); Hashtbl.replace names i i) (group4 toks);
+  let ncell = ref n in
+  let get i = Hashtbl.find cells (Hashtbl.find names i) in
+  let set i v = Hashtbl.replace cells (Hashtbl.find names i) v in
+  let fresh_cell k v = Hashtbl.replace cells !ncell v; Hashtbl.replace names k !ncell; incr ncell in
+  let known st =
+    let rest = String.sub st 1 (String.length st - 1) in
+    let f = String.split_on_char '.' rest in
+    Hashtbl.mem names (int_of_string (List.hd f)) && (st.[0] <> 'x' || Hashtbl.mem names (int_of_string (List.nth f 1))) in
+  let out = List.map (fun st ->
+    let c = st.[0] and rest = String.sub st 1 (String.length st - 1) in
+    if not (known st) then "~" else
+    match c with
+    | 'm' ->
+       let dot = String.index rest '.' in
+       let i = int_of_string (String.sub rest 0 dot) and o = String.sub rest (dot + 1) (String.length rest - dot - 1) in
+       (match op_tok o with
+        | Restart -> set i (restart (get i)); "."
+        | Msg m -> let (r', b) = is_in_range_gen f (get i) m in set i r'; b2s b)
+    | 'x' -> (match ints_of rest with
+              | [i; j; k; ip] ->
+                 (match intersect_gen f (get i) (get j) with
+                  | ValueError -> "E"
+                  | Ok r -> if ip = 1 then (set i r; Hashtbl.replace names k (Hashtbl.find names i); ".s") else (fresh_cell k r; "."))
+              | _ -> fail st)
+    | 'a' -> let dot = String.index rest '.' in
+             let i = int_of_string (String.sub rest 0 dot) and t = oz_tok (String.sub rest (dot + 1) (String.length rest - dot - 1)) in
+             (match make_absolute_gen f (get i) t with ValueError -> "E" | Ok r -> set i r; ".")
+    | 'b' -> (match String.split_on_char '.' rest with
+              | [i; k; t] -> (match make_absolute_gen f (get (int_of_string i)) (oz_tok t) with
+                              | ValueError -> "E" | Ok r -> fresh_cell (int_of_string k) r; ".")
+              | _ -> fail st)
+    | 'c' | 'd' -> (match ints_of rest with [i; k] -> fresh_cell k (get i); "." | _ -> fail st)
+    | 'q' -> (match String.split_on_char '.' rest with
+              | [i; k; ab] -> (match parse_obj (get (int_of_string i)) (ob_tok ab) with
+                               | ValueError -> "E"
+                               | Ok _ -> Hashtbl.replace names (int_of_string k) (Hashtbl.find names (int_of_string i)); ".s")
+              | _ -> fail st)
+    | _ -> fail st) steps in
+  let keys = List.sort compare (Hashtbl.fold (fun k _ acc -> k :: acc) names []) in
+  let all = List.map get keys in
+  String.concat "," out ^ ";" ^ String.concat "" (List.map getters all) ^ "|" ^ String.concat "/" (List.map show_state all)
+(* ---- histories: SPEC.  A range is the conjunction of the intervals it was built from ---- *)
+type scell = { mutable leaves : args list; mutable kabs : bool; mutable st0 : z option; mutable t0s : z list;
+               mutable used : bool; mutable sops : op list; mutable outs : int list }
+let history_spec n toks steps =
+  let cells = Hashtbl.create 8 and names = Hashtbl.create 8 in
+  List.iteri (fun i a ->
+    let v = describe a in
+    Hashtbl.replace cells i { leaves = [a]; kabs = v.iabs; st0 = v.org; t0s = (match v.org with Some z -> [z] | None -> []);
+                              used = false; sops = []; outs = [] };
+    Hashtbl.replace names i i) (group4 toks);
+  let ncell = ref n in
+  let get i = Hashtbl.find cells (Hashtbl.find names i) in
+  let fresh_cell k c = Hashtbl.replace cells !ncell c; Hashtbl.replace names k !ncell; incr ncell in
+  let addt l t = if List.mem t l then l else t :: l in
+  let res = Array.make (List.length steps) "." in
+  let known st =
+    let rest = String.sub st 1 (String.length st - 1) in
+    let f = String.split_on_char '.' rest in
+    Hashtbl.mem names (int_of_string (List.hd f)) && (st.[0] <> 'x' || Hashtbl.mem names (int_of_string (List.nth f 1))) in
+  List.iteri (fun idx st ->
+    let c = st.[0] and rest = String.sub st 1 (String.length st - 1) in
+    if not (known st) then res.(idx) <- "~" else
+    match c with
+    | 'm' ->
+       let dot = String.index rest '.' in
+       let i = int_of_string (String.sub rest 0 dot) and o = String.sub rest (dot + 1) (String.length rest - dot - 1) in
+       let cl = get i in
+       cl.sops <- op_tok o :: cl.sops;
+       (match op_tok o with Msg _ -> cl.used <- true; cl.outs <- idx :: cl.outs | Restart -> ())
+    | 'x' -> (match ints_of rest with
+              | [i; j; k; ip] ->
+                 let a = get i and b = get j in
+                 if a.used || b.used then raise Outside;
+                 if a.kabs <> b.kabs && a.st0 = None && b.st0 = None then res.(idx) <- "E"
+                 else begin
+                   let t0 = (match a.st0 with Some z -> Some z | None -> b.st0) in
+                   let ts = List.fold_left addt a.t0s b.t0s in
+                   (* a converted relative operand uses its own t0, else the one donated by the other *)
+                   let ts = if a.kabs <> b.kabs then (match (if a.kabs then (match b.st0 with Some z -> Some z | None -> a.st0) else (match a.st0 with Some z -> Some z | None -> b.st0)) with Some z -> addt ts z | None -> ts) else ts in
+                   let nc = { leaves = a.leaves @ b.leaves; kabs = a.kabs || b.kabs; st0 = t0; t0s = ts; used = false; sops = []; outs = [] } in
+                   if ip = 1 then (a.leaves <- nc.leaves; a.kabs <- nc.kabs; a.st0 <- nc.st0; a.t0s <- nc.t0s;
+                                   Hashtbl.replace names k (Hashtbl.find names i); res.(idx) <- ".s")
+                   else fresh_cell k nc
+                 end
+              | _ -> fail st)
+    | 'a' | 'b' ->
+       let parts = String.split_on_char '.' rest in
+       let i, k, t = (match c, parts with
+                      | 'a', [i; t] -> int_of_string i, -1, oz_tok t
+                      | 'b', [i; k; t] -> int_of_string i, int_of_string k, oz_tok t
+                      | _ -> fail st) in
+       let a = get i in
+       if a.used then raise Outside;
+       let t' = (match a.st0 with Some z -> Some z | None -> t) in
+       if (not a.kabs) && t' = None then res.(idx) <- "E"
+       else begin
+         let ts = (match t' with Some z -> addt a.t0s z | None -> a.t0s) in
+         if c = 'a' then (a.st0 <- t'; a.t0s <- ts; a.kabs <- true)
+         else fresh_cell k { leaves = a.leaves; kabs = true; st0 = t'; t0s = ts; used = false; sops = []; outs = [] }
+       end
+    | 'c' | 'd' -> (match ints_of rest with
+                    | [i; k] -> let a = get i in if a.used then raise Outside;
+                                fresh_cell k { leaves = a.leaves; kabs = a.kabs; st0 = a.st0; t0s = a.t0s; used = false; sops = []; outs = [] }
+                    | _ -> fail st)
+    | 'q' -> (match String.split_on_char '.' rest with
+              | [i; k; ab] -> let a = get (int_of_string i) in
+                              (match ob_tok ab with
+                               | Some b when b <> a.kabs -> res.(idx) <- "E"
+                               | _ -> Hashtbl.replace names (int_of_string k) (Hashtbl.find names (int_of_string i)); res.(idx) <- ".s")
+              | _ -> fail st)
+    | _ -> fail st) steps;
+  Hashtbl.iter (fun _ cl ->
+    let ops = List.rev cl.sops in
+    if ops <> [] then begin
+      if not (nondecr None ops) then raise Outside;
+      (match cl.t0s with
+       | _ :: _ :: _ -> raise Outside
+       | [t] -> (match first_timed ops with
+                 | Some f when f <> t && List.exists (fun a -> let v = describe a in (not v.iabs) && v.org = None) cl.leaves -> raise Outside
+                 | _ -> ())
+       | [] -> ());
+      let vs = List.map (fun a -> spec_run (describe a) ops) cl.leaves in
+      let v = List.fold_left (fun acc x -> map2 (&&) acc x) (List.hd vs) (List.tl vs) in
+      List.iter2 (fun idx b -> res.(idx) <- b2s b) (List.rev cl.outs) v
+    end) cells;
+  String.concat "," (Array.to_list res)
+let str_tok h = List.map z_of_int (hex_to_ints (if h = "-" then "" else h))
 let () =
   try while true do
     let line = input_line stdin in
@@ -61,10 +211,14 @@ let () =
              | ["P"; h; ab; ops] ->
                 (match parse_gen f (str_tok h) (ob_tok ab) with
                  | PErr -> "E" | PUnsup -> "U" | POk r -> show_run f r (ops_tok ops))
+             | "H" :: n :: more ->
+                let n = int_of_string n in
+                history_model f n (take (4 * n) more) (String.split_on_char ',' (List.nth more (4 * n)))
              | ["T"; a; b; c; d; ab; ops] ->
                 (match parse_obj (init_gen f (args_of a b c d)) (ob_tok ab) with
                  | ValueError -> "E" | Ok r -> show_run f r (ops_tok ops))
-             | ["Q"; a; b; ty; ab; ops] ->
+             | ["Q"; _; _; _; _; _; form] when String.contains form '4' -> "E"
+             | "Q" :: a :: b :: ty :: ab :: ops :: _ ->
                 (match parse_tuple_gen f (targ_tok a) (targ_tok b) (if ty = "-" then None else Some (str_tok ty)) (ob_tok ab) with
                  | ValueError -> "E" | Ok r -> show_run f r (ops_tok ops))
              | _ -> "?")
@@ -98,12 +252,16 @@ let () =
                  | `V x, `V y -> dom ops (fun () -> bools (spec_run (describe (describe_text sh (ob_tok ab) x y)) ops))
                  | `U, _ | _, `U -> "U"
                  | _, _ -> "X")
+             | "H" :: n :: more ->
+                let n = int_of_string n in
+                (try history_spec n (take (4 * n) more) (String.split_on_char ',' (List.nth more (4 * n))) with Outside -> "X")
              | ["T"; a; b; c; d; ab; ops] ->
                 let v = describe (args_of a b c d) and ops = ops_tok ops in
                 (match ob_tok ab with
                  | Some k when k <> v.iabs -> "E"
                  | _ -> dom ops (fun () -> bools (spec_run v ops)))
-             | ["Q"; a; b; ty; ab; ops] ->
+             | ["Q"; _; _; _; _; _; form] when String.contains form '4' -> "E"
+             | "Q" :: a :: b :: ty :: ab :: ops :: _ ->
                 let ops = ops_tok ops in
                 let k = if ty = "-" then Some (ob_tok ab) else if ty = "616273" then Some (Some true) else if ty = "72656c" then Some (Some false) else None in
                 (match k with
@@ -111,6 +269,6 @@ let () =
                  | Some k -> dom ops (fun () -> bools (spec_run (describe { a_start = targ_tok a; a_end = targ_tok b; a_abs = k; a_t0 = None }) ops)))
              | _ -> "?")
          | _ -> "?")
-      with Failure m -> "!" ^ m | Invalid_argument m -> "!" ^ m
+      with Failure m -> "!" ^ m | Invalid_argument m -> "!" ^ m | Not_found -> "!Not_found"
     in print_endline out
   done with End_of_file -> ()
